@@ -218,6 +218,14 @@ def run(res, tier, seed):
         raise C.Fail("harness build failed (does /repo still compile with -tags verif?):\n" + out[-3000:])
     cases = gen(tier, rnd)
     results, dt = P.run_scenarios("C17", scenarios(cases), timeout=3000)
+    if tier == "thorough":
+        # the other direction of the correspondence (code within model), see lib/lifecycle.trace_inclusion
+        from .. import lifecycle as _L
+        _scs = scenarios(cases)
+        _stuck = _L.trace_inclusion(res, "C17", [(a, {"cause": "?", "point": "?"}, b) for a, b in zip(_scs, results)], 16)
+        if _stuck:
+            res.violation("C17:obligation:trace", "the callback sequence of a real run is not a path of the control skeleton (observation %d)" % _stuck[0][3],
+                          {"scenario": _stuck[0][0], "observations": _L.observations(_stuck[0][0], _stuck[0][2])[1]}, found_input=False)
     crashed = [(i, c, r) for i, (c, r) in enumerate(zip(cases, results)) if r.get("crashed")]
     mach = [(c, r) for c, r in zip(cases, results) if (P.machinery_problem(r) or not r["run_returned"]) and not r.get("crashed")]
     res.oblige("harness: every scenario ran as scripted (%d)" % len(cases), not mach, [P.summarize(r) for c, r in mach[:1]])
